@@ -172,5 +172,10 @@ func CleanupNodeDataDir(fs vfs.FS, dir string) error {
 			}
 		}
 	}
+	// The current file may have been published by a run that ended between the rename and the
+	// directory sync that makes it durable; it is relied upon from here on, so sync the directory.
+	if err := syncDir(fs, dir); err != nil {
+		return err
+	}
 	return nil
 }
